@@ -16,7 +16,7 @@ from ..engine import pattern as P
 from ..engine.facts import dotted, const, src, walk_func, enclosing_stmt, ancestors
 from . import skeletons as sk
 from . import c19  # idents-fields (scan state, parameter binding) is registered for C04 there
-from .common import calls, stmt_nodes, contains, pn, access_paths
+from .common import calls, stmt_nodes, contains, pn, access_paths, assigned_from, describe_owner
 from .common import raise_names as common_raise_names
 
 
@@ -30,12 +30,13 @@ def reserved_at_render(ctx):
     ctx.check(bool(ifs) and flow.always_raises(ifs[0].body), "check.raises", db.where(sw), "a reserved name in the data does not raise", "raises")
     rn = db.func("runtime._render")
     g = cfgmod.function_cfg(rn)
-    s_ = [x for c in calls(rn, "context._set_with_template") for x in stmt_nodes(g, c)]
+    cvars = assigned_from(rn, "Context(...)")
+    s_ = [x for cv_ in cvars for c in calls(rn, cv_ + "._set_with_template") for x in stmt_nodes(g, c)]
     r_ = [x for c in calls(rn, "_render_context") for x in stmt_nodes(g, c)]
     p = g.path_avoiding(g.entry, r_, s_) if r_ else None
     ctx.check(bool(s_) and bool(r_) and p is None, "_render.dominates", db.where(rn), "_render can reach _render_context without the reserved-name check", "_set_with_template dominates _render_context")
     cx = calls(rn, "Context")
-    ctx.check(bool(cx) and any(k.arg is None and src(k.value) == "data" for k in cx[0].keywords), "_render.data", db.where(rn), "the context is not built from the data passed to render()", "Context(buf, **data)")
+    ctx.check(bool(cx) and any(k.arg is None and src(k.value) == pn(rn, 3) for k in cx[0].keywords), "_render.data", db.where(rn), "the context is not built from the data passed to render()", "Context(buf, **data)")
     rc = db.func("template.Template.render_context")
     ifs = [i for i in rc.body if isinstance(i, ast.If)]
     ok = P.has(rc, "if getattr($c, '_with_template', None) is None:\n    $c._set_with_template(self)\n    ...") or P.has(rc, "if $c._with_template is None:\n    $c._set_with_template(self)\n    ...")
@@ -78,8 +79,8 @@ def context_isolation(ctx):
     """Context data is mutated only in the constructor, on a Context obtained in the same function from _copy(), or at the inheritance wiring sites; kwargs hands out copies"""
     db = ctx.db
     cp = db.func("runtime.Context._copy")
-    a = [s for s in walk_func(cp) if isinstance(s, ast.Assign) and dotted(s.targets[0]) == "c._data"]
-    ctx.check(bool(a) and src(a[0].value) == "self._data.copy()", "_copy.data", db.where(cp), "_copy shares the data dict (%s): template code then alters the context seen by other scopes and by the caller of render" % (src(a[0].value) if a else None), "c._data = self._data.copy()")
+    a = [s for s in walk_func(cp) if isinstance(s, ast.Assign) and (dotted(s.targets[0]) or "").endswith("._data")]
+    ctx.check(bool(a) and P.has(cp, "$c = Context.__new__(Context)\n...\n$c._data = self._data.copy()\n...\nreturn $c"), "_copy.data", db.where(cp), "_copy shares the data dict (%s): template code then alters the context seen by other scopes and by the caller of render" % (src(a[0].value) if a else None), "c._data = self._data.copy()")
     kw = db.func("runtime.Context.kwargs")
     r = [x for x in walk_func(kw) if isinstance(x, ast.Return)]
     ctx.check(bool(r) and src(r[0].value) == "self._kwargs.copy()", "kwargs.copy", db.where(kw), "context.kwargs returns %s" % (src(r[0].value) if r else None), "returns a copy")
@@ -89,7 +90,7 @@ def context_isolation(ctx):
     first_mut = min([s.lineno for s in walk_func(ci) if isinstance(s, ast.Assign) and "self._data[" in src(s)] or [10 ** 9])
     ctx.check(bool(a) and a[0].lineno < first_mut, "kwargs.before-builtins", db.where(ci), "kwargs snapshot is taken after capture/caller were added to the data", "snapshot precedes the additions")
     # mutations of ._data anywhere in runtime.py
-    allowed_wiring = {("runtime._inherit_from", "context._data['parent']"), ("runtime._inherit_from", "lclcontext._data['local']"),
+    allowed_wiring = {("runtime._inherit_from", "context._data['parent']"), ("runtime._inherit_from", "(context._locals)._data['local']"),
                       ("runtime._populate_self_namespace", "context._data['self']"), ("runtime._populate_self_namespace", "context._data['local']")}
     m = db.mod("runtime")
     n = 0
@@ -120,6 +121,8 @@ def context_isolation(ctx):
         f = getattr(node, "_func", None)
         q = getattr(f, "_qual", "<module>")
         owner = tgt.split("._data")[0]
+        if owner.isidentifier() and owner != "self":
+            tgt = describe_owner(f, node, owner) + tgt[len(owner):]
         key = "%s:%s:%s" % (q, tgt, kind)
         if q == "runtime.Context.__init__" and owner == "self":
             ctx.ok(key, db.where(node), "constructor")
